@@ -6,41 +6,39 @@
 From PV Require Import Base.MachineInt Model.C16Meta Model.C16Spec Proofs.C16Proofs.
 Open Scope Z_scope.
 
-(* every Ok result satisfies log_delta + log_budget <= max_k(dst) (and stays in the small range), for every
-   operation but ckks_rescale_into with a destination smaller than the result (class K1) *)
+(* State of /repo: after the repairs fd924ce (ct x ct scale), 3326e5c (rescale_into), e31e2c8 (mul_pt base2k),
+   84cafa8 (constant digits), b042dad (set_meta_checked), 628058f (_into forms check the budget first).
+   Hypotheses: base2k >= 1; operands `good` (log_delta + log_budget <= limbs * base2k < 2^62); caller scalars are
+   arbitrary usize values (`wf_op`). *)
+
+(* every Ok result satisfies log_delta + log_budget <= max_k(dst): every operation, either build profile *)
 Theorem C16_meta_never_exceeds :
   forall (chk : bool) (B : Z) (o : op) (d a b : ct) (m : meta) (sz : Z) (sh : list Z),
     1 <= B -> wf_op B o -> good B d -> good B a -> good B b ->
-    ~ k1_rescale_into_small_dst B o d a ->
     meta_step chk B o d a b = Done m sz sh ->
     good B (Ct m sz).
 Proof. exact meta_never_exceeds. Qed.
 Print Assumptions C16_meta_never_exceeds.
 
-Theorem C16_meta_never_exceeds_refuted :
-  exists (B : Z) (d a : ct) (k : Z) (m : meta) (sz : Z) (sh : list Z),
-    1 <= B /\ wf_op B (ORescaleInto k) /\ good B d /\ good B a /\
-    meta_step true B (ORescaleInto k) d a a = Done m sz sh /\ maxk B (Ct m sz) < eff m.
-Proof. exact rescale_into_exceeds_refuted. Qed.
-Print Assumptions C16_meta_never_exceeds_refuted.
+(* ... and so does every Err: a rejected call leaves metadata that the destination can hold *)
+Theorem C16_fail_keeps_invariant :
+  forall (chk : bool) (B : Z) (o : op) (d a b : ct) (e : ekind) (m : meta),
+    1 <= B -> wf_op B o -> good B d -> good B a -> good B b ->
+    meta_step chk B o d a b = Fail e m ->
+    good B (Ct m (csize d)).
+Proof. exact fail_keeps_good. Qed.
+Print Assumptions C16_fail_keeps_invariant.
 
-(* under the code's own branch guards no usize subtraction / addition leaves the usize range and no limb index
-   is out of range, in either build profile, for every admissible call outside the panic classes K2, K3, K6 *)
+(* under the code's own branch guards no usize subtraction / addition leaves the usize range and no limb index is
+   out of range, in either build profile, for every admissible call except products of ciphertexts that are not
+   stored compactly (the remaining known class) *)
 Theorem C16_no_underflow :
   forall (chk : bool) (B : Z) (o : op) (d a b : ct),
     1 <= B -> wf_op B o -> good B d -> good B a -> good B b ->
-    admissible B o d a -> ~ known_panic B o d a b ->
+    admissible B o d a -> ~ k3_product_of_noncompact B o d a b ->
     meta_step chk B o d a b <> Panic.
 Proof. exact no_panic. Qed.
 Print Assumptions C16_no_underflow.
-
-Theorem C16_no_underflow_refuted_const_add :
-  exists (B : Z) (d : ct) (prec : meta),
-    1 <= B /\ wf_op B (OCstRnxAssign prec false) /\ good B d /\ admissible B (OCstRnxAssign prec false) d d /\
-    meta_step true B (OCstRnxAssign prec false) d d d = Panic /\
-    meta_step false B (OCstRnxAssign prec false) d d d = Panic.
-Proof. exact const_add_panics_refuted. Qed.
-Print Assumptions C16_no_underflow_refuted_const_add.
 
 Theorem C16_no_underflow_refuted_product_noncompact :
   exists (B : Z) (d a : ct),
@@ -49,61 +47,46 @@ Theorem C16_no_underflow_refuted_product_noncompact :
 Proof. exact product_noncompact_panics_refuted. Qed.
 Print Assumptions C16_no_underflow_refuted_product_noncompact.
 
-Theorem C16_no_underflow_refuted_product_base2k :
-  exists (B : Z) (d a : ct) (p : ptz),
-    1 <= B /\ wf_op B (OMulPtZnxInto p) /\ good B d /\ good B a /\ compact_ct B a /\
-    meta_step true B (OMulPtZnxInto p) d a a = Panic.
-Proof. exact product_base2k_panics_refuted. Qed.
-Print Assumptions C16_no_underflow_refuted_product_base2k.
-
-Theorem C16_no_underflow_refuted_huge_scalar :
-  exists (B : Z) (d a : ct) (bits : Z) (m : meta) (sz : Z) (sh : list Z),
-    1 <= B /\ good B d /\ good B a /\ 0 <= bits < two64 /\
-    meta_step true B (ODivPow2Into bits) d a a = Panic /\
-    meta_step false B (ODivPow2Into bits) d a a = Done m sz sh /\ ld m < ld (cm a).
-Proof. exact huge_scalar_refuted. Qed.
-Print Assumptions C16_no_underflow_refuted_huge_scalar.
-
 (* totality: the call returns Err(kind) exactly when the closed-form algebra `spec_step` says so, Ok with exactly
    the documented metadata and limb count otherwise, and never a third outcome *)
 Theorem C16_error_iff :
   forall (chk : bool) (B : Z) (o : op) (d a b : ct),
     1 <= B -> wf_op B o -> good B d -> good B a -> good B b ->
-    admissible B o d a -> ~ known_panic B o d a b ->
+    admissible B o d a -> ~ k3_product_of_noncompact B o d a b ->
     outcome_matches (meta_step chk B o d a b) (spec_step B o d a b).
 Proof. exact error_iff. Qed.
 Print Assumptions C16_error_iff.
 
-(* the invariant holds after any straight-line program whose calls all succeed (as with `?` propagation) *)
+(* the invariant holds after any straight-line program, whether its calls succeed, fail (and the caller goes on)
+   or panic: by induction over the program *)
 Theorem C16_program_meta :
   forall (chk : bool) (B : Z) (p : list step) (rs : regs),
-    1 <= B -> Forall (good B) rs -> clean_run chk B rs p ->
+    1 <= B -> Forall (good B) rs -> wf_prog B p ->
     Forall (good B) (snd (exec_prog chk B rs p)).
 Proof. exact program_meta. Qed.
 Print Assumptions C16_program_meta.
-
-(* ... but not after a program that goes on after a failed call (class K4) *)
-Theorem C16_program_meta_refuted :
-  exists (B : Z) (rs : regs) (p : list step),
-    1 <= B /\ Forall (good B) rs /\ Forall (fun s => wf_op B (sop s)) p /\
-    (exists e m m' sz sh, fst (exec_prog true B rs p) = [Fail e m; Done m' sz sh]) /\
-    ~ Forall (inv B) (snd (exec_prog true B rs p)).
-Proof. exact program_meta_refuted. Qed.
-Print Assumptions C16_program_meta_refuted.
 
 (* the hypotheses are satisfiable *)
 Example C16_example_step :
   let B := 19 in let d := Ct (Meta 0 0) 6 in let a := c8 30 122 in
   1 <= B /\ wf_op B ONegInto /\ good B d /\ good B a /\ admissible B ONegInto d a /\ ~ known_panic B ONegInto d a a /\
-  ~ k1_rescale_into_small_dst B ONegInto d a /\
   meta_step true B ONegInto d a a = Done (Meta 30 84) 6 [38].
 Proof. exact example_step. Qed.
+
+(* the repaired classes, as regression witnesses *)
+Example C16_example_repaired :
+  meta_step true 19 (ORescaleInto 3) (Ct (Meta 0 0) 6) (c8 30 122) (c8 30 122) = Done (Meta 30 84) 6 [38] /\
+  meta_step true 19 (OCstRnxAssign (Meta 50 0) false) (Ct (Meta 30 8) 2) (c8 0 0) (c8 0 0) = Fail EAlign (Meta 30 8) /\
+  meta_step true 19 ONegInto (Ct (Meta 0 0) 1) (c8 30 122) (c8 30 122) = Fail ECapacity (Meta 0 0) /\
+  meta_step false 19 (ODivPow2Into (two64 - 1)) (Ct (Meta 0 0) 7) (c8 30 122) (c8 30 122) = Fail ECapacity (Meta 0 0) /\
+  meta_step false 19 (OSetMeta (Meta (two64 - 1) 2)) (Ct (Meta 0 0) 7) (c8 0 0) (c8 0 0) = Fail EShrink (Meta 0 0).
+Proof. exact example_repaired. Qed.
 
 Example C16_example_program :
   let B := 19 in
   let rs := [Ct (Meta 0 0) 8; Ct (Meta 0 0) 8; Ct (Meta 0 0) 7] in
   let p := [Step (OEncrypt (Meta 30 10) 152) 0 0 0; Step OSquareInto 1 0 0; Step OCompact 1 1 1;
-            Step (ORescaleInto 10) 2 1 1; Step OLinAssign 2 1 1] in
-  1 <= B /\ Forall (good B) rs /\ clean_run true B rs p /\
-  snd (exec_prog true B rs p) = [c8 30 122; Ct (Meta 30 92) 7; Ct (Meta 30 82) 7].
+            Step (ORescaleInto 10) 2 1 1; Step OLinAssign 2 1 1; Step ONegInto 2 0 0] in
+  1 <= B /\ Forall (good B) rs /\ wf_prog B p /\
+  snd (exec_prog true B rs p) = [c8 30 122; Ct (Meta 30 92) 7; Ct (Meta 30 103) 7].
 Proof. exact example_program. Qed.
